@@ -32,6 +32,8 @@ import CtyModel.ConvertUnify
 import CtyModel.ConvertD08Env
 import CtyModel.Lemmas.ConvertD08SetEnv
 import CtyModel.Lemmas.UnifyTyLaws
+import CtyModel.Lemmas.ConvertD08Mono
+import CtyModel.Lemmas.ConvertD08Fuel
 namespace CtyModel
 namespace C08
 open Convert Ty
@@ -240,6 +242,52 @@ theorem safe_total_partial (E : Env) (hU : UnifyLaws E) (hS : SetLaws E) (fuel :
 /-- with enough fuel the sample conversion of the non-vacuity section does return a value -/
 example : (apply Env.simple 8 (.wrap (.list .string) (.collToList .string (.wrap .string .boolToStr)))
     ⟨.list .bool, .seq [.b true, .null]⟩).isOk = true := by decide
+
+/-! ## Fuel: the model's results are monotone in the fuel, and enough fuel is explicit
+
+`apply E 0 _ _ = .unmodelled`, so at small fuel the theorems above hold for a trivial reason.
+These two facts rule that reading out: an outcome other than `.unmodelled` never changes when
+more fuel is given, and for safe conversions twice the nesting depth of the value is enough. -/
+
+/-- An outcome other than "out of fuel" is the outcome at every larger fuel — for every
+environment, plan and value (no side condition at all). -/
+theorem fuel_monotone (E : Env) (fuel fuel' : Nat) (hle : fuel ≤ fuel') (p : Plan) (v : Value)
+    (h : apply E fuel p v ≠ .unmodelled) : apply E fuel' p v = apply E fuel p v :=
+  apply_mono E hle p v h
+
+/-- … and likewise for `Convert`. -/
+theorem fuel_monotone_convert (E : Env) (fuel fuel' : Nat) (hle : fuel ≤ fuel') (v : Value) (want : Ty)
+    (h : convert E fuel v want ≠ .unmodelled) : convert E fuel' v want = convert E fuel v want :=
+  convert_mono E hle v want h
+
+/-- an environment whose set parameters always answer satisfies the set laws -/
+theorem setLaws_of_total (E : Env) (hT : SetTotal E) : SetLaws E where
+  hash_ok := fun t p hw hm => .inl (hT.hash_ok t p hw hm)
+  equiv_ok := fun t a b hw ha hb => .inl (hT.equiv_ok t a b hw ha hb)
+
+/-- Fuel adequacy: with `fuel ≥ 2 · depth(value)` a safe conversion to a placeholder-free target,
+applied to a well-typed wholly-known value, does not run out of fuel (when the set parameters
+themselves answer: `SetTotal`, e.g. `Env.simple`; `hashC` / `equivC` of the driver give up only on
+strings outside the modelled `%q` range and on capsule members). -/
+theorem safe_fuel_adequate_partial (E : Env) (hU : UnifyLaws E) (hT : SetTotal E) (v : Value) (want : Ty)
+    (p : Plan) (hp : RegularPair v want) (hk : Payload.whollyKnown v.v = true)
+    (hg : getConversion E v.ty want = some p) :
+    ∀ fuel, 2 * v.v.depth ≤ fuel → apply E fuel p v ≠ .unmodelled :=
+  fun _ hf => apply_safe_fin hU hT hp hk hg hf
+
+/-- `safe_total_partial` without its `∨ … = .unmodelled` disjunct: with adequate fuel a safe
+conversion RETURNS A VALUE of the target type — and the same value for every larger fuel. -/
+theorem safe_total_adequate_partial (E : Env) (hU : UnifyLaws E) (hT : SetTotal E) (fuel : Nat) (v : Value)
+    (want : Ty) (p : Plan) (hp : RegularPair v want) (hk : Payload.whollyKnown v.v = true)
+    (hg : getConversion E v.ty want = some p) (hf : 2 * v.v.depth ≤ fuel) :
+    ∃ r, apply E fuel p v = .ok r ∧ r.ty = want.stripOpt ∧ ∀ fuel', fuel ≤ fuel' → apply E fuel' p v = .ok r := by
+  rcases safe_total_partial E hU (setLaws_of_total E hT) fuel v want p hp hk hg with ⟨r, hr, hty⟩ | hu
+  · refine ⟨r, hr, hty, fun fuel' hle => ?_⟩
+    rw [apply_mono E hle p v (by rw [hr]; simp), hr]
+  · exact absurd hu (apply_safe_fin hU hT hp hk hg hf)
+
+example : SetTotal Env.simple := setTotal_simple
+example : 2 * (Payload.seq [.b true, .null]).depth ≤ 4 := by decide
 
 /-! ## Everything offered as safe is offered as unsafe -/
 
